@@ -45,3 +45,19 @@ Print Assumptions C05_no_directive_no_effect.
 Theorem C05_parse_comment_total : forall w c, parse_comment w c <> PPanic.
 Proof. exact parse_comment_total. Qed.
 Print Assumptions C05_parse_comment_total.
+
+From V Require Import Pipeline.Tokens Pipeline.Reason.
+
+(* an appended `-- reason` is ignored: `// <word> <ws> -- reason` is the bare directive ... *)
+Theorem C05_parse_bare_with_reason : forall w c ws r,
+  c_line c = true -> trim (c_text c) = w ++ ws ++ DASH :: DASH :: r -> w <> [] ->
+  forallb (fun c => negb (is_ws c)) w = true -> ws <> [] -> all_ws ws -> no_nl r ->
+  exists d, parse_dir w c = Some d /\ dir_codes d = [].
+Proof. exact parse_bare_with_reason. Qed.
+Print Assumptions C05_parse_bare_with_reason.
+
+(* ... hence silences the file when it is the first directive among the leading comments *)
+Theorem C05_bare_with_reason_names_no_code : forall ws r,
+  all_ws ws -> no_nl r -> codes_of_text (ws ++ DASH :: DASH :: r) = [].
+Proof. exact bare_with_reason. Qed.
+Print Assumptions C05_bare_with_reason_names_no_code.
